@@ -1151,6 +1151,7 @@ class Interp:
     def isinstance(self, x, types):
         if not isinstance(types, tuple):
             types = (types,)
+        types = tuple({"b_float": float, "b_int": int}.get(getattr(t, "__name__", None), t) if callable(t) and not isinstance(t, type) else t for t in types)
         x0 = x
         x = unwrap(x)
         for t in types:
@@ -1329,6 +1330,9 @@ class Interp:
 
     def ex_Subscript(self, node, env):
         base = unwrap(self.eval(node.value, env))
+        if isinstance(base, _CClass):
+            elts = node.slice.elts if isinstance(node.slice, ast.Tuple) else [node.slice]
+            return base[tuple(self.eval(e, env) for e in elts)]
         idx = self.eval_index(node.slice, env)
         if isinstance(base, Opaque):
             return Opaque(base.what + "[]")
@@ -1706,6 +1710,13 @@ def sym_mat(prefix, r, c):
         for j in range(c):
             out[i, j] = P.sym("%s%d%d" % (prefix, i, j))
     return out
+
+
+def unit_syms(prefix):
+    """a unit quaternion as four plain symbols with the declared relation w^2 = 1 - x^2 - y^2 - z^2 (cheap representation)"""
+    a = sym_vec(prefix, 4, "wxyz")
+    P.declare_unit(list(a))
+    return a
 
 
 def unit_quat(prefix):
